@@ -71,6 +71,7 @@ def gen_config(rng, tier, index=0):
         "threshold": rng.choice([None, None, 0.05, 0.5]),
         "temperatures": rng.choice([None, None, [0.3, 1.0]]),
         "inbreeding": rng.choice([None, None, "const", "file", "file"]),
+        "opt_picks": [rng.random() for _ in range(2)],
     }
 
 
@@ -127,7 +128,13 @@ class Batch(scn_c08.Batch):
             rep = [x for x in rep if x != "GP"]  # observation O2 (see scn_c08.base_args)
         if rep:
             a += ["--report"] + rep
-        a += self.mcmc_args(program) + ["--cores", str(cores)]
+        extra = self.mcmc_args(program)
+        if inbreeding is not None:
+            # --inbreeding is given per batch above; drop the option swarm's constant one
+            while "--inbreeding" in extra:
+                i = extra.index("--inbreeding")
+                del extra[i:i + 2]
+        a += extra + ["--cores", str(cores)]
         return a
 
 
